@@ -34,6 +34,7 @@ class Outcome:
         self.stats = {}
         self.runs = 1             # simulated runs executed for this case (baseline counted too)
         self.infra = None         # infrastructure problem (server died...) -> not a property verdict
+        self.wall = 0.0
         self.maxima = {}          # name -> value; the evidence reports the maximum over all cases
         self.case = None          # the case with every relative choice resolved (what replay files store)
 
@@ -122,7 +123,10 @@ class Check:
         outcomes = [None] * len(cases)
 
         def fn(case, run_one):
-            return self.prop.execute(case, run_one)
+            t0 = time.time()
+            oc = self.prop.execute(case, run_one)
+            oc.wall = time.time() - t0
+            return oc
 
         def on_result(i, case, oc):
             outcomes[i] = oc
@@ -192,6 +196,7 @@ class Check:
         probes = {}
         samples = []
         families = {}
+        famwall = {}
         infra = {}
         stats_sum = {}
         maxima = {}
@@ -219,6 +224,7 @@ class Check:
                     continue
                 fam = case.get("meta", {}).get("family", "default")
                 families[fam] = families.get(fam, 0) + 1
+                famwall[fam] = famwall.get(fam, 0.0) + oc.wall
                 for k, v in oc.fired.items():
                     fired[k] = fired.get(k, 0) + v
                 for k, v in oc.probes.items():
@@ -315,6 +321,9 @@ class Check:
         if sum(infra.values()) > max(3, n_eval // 20):
             print("CHECK-BROKEN property=%s infrastructure problems: %r" % (prop.ID, infra))
             return 2
+        if os.environ.get("VERIF_DEBUG"):
+            for fam in sorted(famwall, key=lambda f: -famwall[f]):
+                print("  family %-28s n=%4d wall=%.1fs avg=%.2fs" % (fam, families[fam], famwall[fam], famwall[fam] / families[fam]))
         print("%s %s: %d cases (%d simulated runs, %d distinct non-trivial traces) in %.1fs; faults fired: %s; violations: %d; known findings hit: %s"
               % (prop.ID, self.tier, n_eval, n_runs, len(distinct), wall, json.dumps(fired, sort_keys=True), len(reported), sorted(known_hit)))
         return exit_code
